@@ -9,6 +9,13 @@ CLAIMED = {
  'C03': ('proptest-driven structured mutation fuzzing (grammar streams x mutators x edge option sets), crash/exit oracle, binary cross-check',
          'Exploration: tens of thousands of generated (input, option set, calling-process) cases per run are executed in-process with panics, process exits and worker deaths attributed to the case; a sample is replayed through the real binary whose exit status and stderr are judged. A crash is a counterexample; silence means no crash in the explored sample, not absence.',
          'Trusted: the include!-built library behaves like the binary (cross-checked every run); option values generated valid by construction; hang detection by supervisor watchdog only.', '3/C03'),
+
+ 'C01': ('proptest-generated diffs x tagged option sets; independent terminal model + reference expected-text function; sequence equality oracle',
+         'Exploration: every generated hunk line must appear exactly once, in order, with the expected text and under its own file header, as read back from the rendered cells by an independent terminal model (elements identified by reserved background tags).',
+         'Trusted: terminal model, reference expected-text function, tag attribution; merge-conflict regions not generated yet.', '3/C01'),
+ 'C10': ('proptest-generated section sequences; metamorphic concatenation law + repeat-run determinism (in-process and real binary)',
+         'Exploration: delta(S1..Sn) must equal delta(S1)..delta(Sn) byte for byte for generated sequences of git file sections of every kind under all modes; the same case is re-run with fresh hash states and in separate processes and must give identical bytes (also --show-config).',
+         'Trusted: section generator emits complete git file diffs; max-line-length kept above header lines.', '3/C10'),
 }
 hook_commits = subprocess.check_output(['git','-C','/repo','log','--format=%H','--grep','^verif hook:'],text=True).split()
 checks = []
